@@ -26,7 +26,8 @@ TEXT = {
           "model tied to the tree by regenerated constants/AST facts and by a differential stream driving the real ProtocolManager.",
   "design_ref": "§3 C15",
   "note": "Only the handler logic is proved. Survival on arbitrary bytes, allocation inside rlp, goroutine hygiene and liveness are "
-          "differential testing against the total model, not proof; frame (rlpx) and discovery streams are not built. Known findings "
+          "differential testing against the total model, not proof; the rlpx frame reader and the discovery packet decoder have "
+          "monitor-only mutation streams, no theorem. Known findings "
           "F7a (unknown hash panics) and F7b (Number+Amount<=1 returns the whole chain) are open.",
   "technique": "Lean 4 proof (omega/case analysis) + regenerated constants and AST facts + differential correspondence over p2p.MsgPipe",
  },
